@@ -134,3 +134,14 @@ prop(
     level_text="For every generated sync history (first-run initialisation, set_scripts all / delete, filter batches, block download and indexing, tip updates, check point finalization, shallow fork rollback, restarts) a crash-free run is validated against the reference indexer and then every write boundary of that history is crashed: the store must reopen (twice in a row) without panic and continued syncing must reach answers equal to the reference at the final tip.",
     level_note="process death between two writes (batches are atomic); torn writes / fsync loss are out of scope; all scripts are registered with start number 0 so that the reference is exact; one serving peer keeps the write sequence reproducible (crash points not reached are counted, not claimed)",
 )
+
+prop(
+    "C17", "fault_enumeration",
+    rule="one evaluation = one pause-point experiment on real threads: operation A is parked before its k-th storage write, operation B runs on another thread, A is released, and the final state "
+         "(script set with numbers, filter progress, persisted and in-memory matched blocks, index digest) is compared with the two serial outcomes computed on replays of the same S0; "
+         "every ordered pair of {set_scripts all / partial / delete, BlockFilters processing, SendBlock completing a batch} x every write boundary k of A is run; a cell = (A, B, k, B finished while A parked?, lock free at the pause?, serial order matched)",
+    sizes=tiers(16, 1, 75, 16, 12, 1200, min_evals=40, min_cells=20),
+    technique="runtime schedule control through the before_write hook (park / release on channels), serial-outcome comparison, lock probe at the pause point, /proc thread-state deadlock detector",
+    level_text="For every ordered pair of the five state-changing operations and every internal write boundary of the first, started from a prepared mid-sync state (scripts registered, filter batch due, matched blocks pending with one block outstanding), the outcome equals one of the two serial outcomes and both threads finish; whether the second operation could run while the first was parked (i.e. whether the global lock was held at that boundary) is recorded per cell.",
+    level_note="fork rollback is not among the paired operations (it needs a multi-message reorg proof; its lock scope is exercised single-threaded by C04) and reader snapshot consistency (db.snapshot in get_cells / get_cells_capacity) is not judged: a mutant that removes a snapshot is out of reach of this check; schedules inside one RocksDB call are not controlled",
+)
